@@ -21,6 +21,7 @@ type req struct {
 	keys   []string // "class|table:key" items the command may read or write
 	tables []string
 	hll    bool
+	bad    bool // accepted by the proposing node, refused by the apply handler
 }
 
 const (
@@ -38,6 +39,11 @@ var classes = []string{clKV, clHash, clList, clSet, clZSet, clBit, clJSON}
 var tables = []string{"t0", "t1"}
 var keyPool = []string{"k0", "k1", "k2"}
 var hllPool = []string{"h0", "h1", "k2"}
+
+// bitmap commands fall back to the KV key of the same name (legacy format):
+// one shared name keeps that path covered, the others keep the (C11) panic of
+// "expired bitmap + KV value under the same name" from ending too many runs.
+var bitPool = []string{"b0", "b1", "k1"}
 var fieldPool = []string{"f0", "f1", "f2", "f3"}
 
 // bubbleEpoch is the instant a synctest bubble starts at.
@@ -54,6 +60,9 @@ type gen struct {
 	w      []int
 	ttlPm  int
 	badPm  int
+	lastBad bool
+	burstPm int // probability that a request starts a burst of batchable commands
+	burst   int // batchable commands left in the running burst
 	hot    int // index of a "hot" key used with higher probability
 	ntable int
 }
@@ -101,6 +110,7 @@ func (g *gen) intval() string {
 func (g *gen) dur() string {
 	if g.t.Bool(g.badPm) {
 		// accepted by the proposing node's argument check, refused at apply
+		g.lastBad = true
 		return []string{"0", "-1", "abc", ""}[g.t.Choose(4)]
 	}
 	return []string{"1", "2", "3", "5", "10", "100", "3600", "259200"}[g.t.Weighted([]int{6, 5, 3, 3, 2, 1, 1, 1})]
@@ -180,6 +190,8 @@ func (g *gen) one(idx int) *req {
 	t := g.t
 	r := &req{idx: idx, id: uint64(1000 + idx)}
 	r.ts = g.nextTs()
+	g.lastBad = false
+	defer func() { r.bad = g.lastBad }()
 	set := func(cl string, args [][]byte, ks ...string) {
 		r.name = string(args[0])
 		r.args = args
@@ -196,6 +208,48 @@ func (g *gen) one(idx int) *req {
 				r.tables = append(r.tables, tb)
 			}
 		}
+	}
+	// bursts of the commands that share a write batch (set, setex, single-key
+	// del, hmset) on few keys: what a raft loop batches under load
+	if g.burst == 0 && t.Bool(g.burstPm) {
+		g.burst = 2 + t.Choose(8)
+	}
+	if g.burst > 0 {
+		g.burst--
+		switch t.Weighted([]int{6, 4, 4, 3, 2}) {
+		case 0:
+			k := g.kvkey()
+			set(clKV, mk("set", k, g.val()), k)
+		case 1:
+			k := g.kvkey()
+			d := g.dur()
+			set(clKV, mk("setex", k, d, g.val()), k)
+			g.noteTTL(r.ts, d)
+		case 2:
+			k := g.kvkey()
+			set(clKV, mk("del", k), k)
+		case 3:
+			k := g.key()
+			args := []string{k}
+			for i, n := 0, 1+t.Choose(3); i < n; i++ {
+				args = append(args, g.field(), g.val())
+			}
+			if t.Bool(g.badPm) {
+				g.lastBad = true
+				args = append(args, strings.Repeat("F", 10241), "v")
+			}
+			set(clHash, mk("hmset", args...), k)
+		case 4:
+			k := g.kvkey()
+			args := []string{k, g.val(), []string{"nx", "xx"}[t.Choose(2)]}
+			if t.Bool(400) {
+				d := []string{"1", "2", "5"}[t.Choose(3)]
+				args = append(args, "ex", d)
+				g.noteTTL(r.ts, d)
+			}
+			set(clKV, mk("set", args...), k)
+		}
+		return r
 	}
 	ttl := t.Bool(g.ttlPm)
 	fam := t.Weighted(g.w)
@@ -290,6 +344,7 @@ func (g *gen) one(idx int) *req {
 			}
 			if t.Bool(g.badPm) {
 				// sub key longer than the limit: refused at apply only
+				g.lastBad = true
 				args = append(args, strings.Repeat("F", 10241), "v")
 			}
 			set(clHash, mk("hmset", args...), k)
@@ -431,7 +486,7 @@ func (g *gen) one(idx int) *req {
 			set(clZSet, mk("zfixkey", k), k)
 		}
 	case 5: // ---- bitmap
-		k := g.key()
+		k := g.table() + ":" + bitPool[g.t.Choose(len(bitPool))]
 		if ttl {
 			if t.Bool(700) {
 				d := g.dur()
@@ -498,6 +553,11 @@ func (g *gen) one(idx int) *req {
 			for _, cl := range classes {
 				for _, kk := range keyPool {
 					r.keys = append(r.keys, cl+"|"+tb+":"+kk)
+				}
+				if cl == clBit {
+					for _, kk := range bitPool[:2] {
+						r.keys = append(r.keys, cl+"|"+tb+":"+kk)
+					}
 				}
 			}
 			for _, kk := range hllPool {
